@@ -249,7 +249,7 @@ def run_primitives(ctx, items: list, fails: list) -> None:
             dens = rng.choice([0.1, 0.3, 0.5, 0.8])
             arr = np.array([rng.random() < dens for _ in range(ny * nx)], dtype=bool).reshape(ny, nx)
             prim_case(ctx, arr, items, fails, 'sample<=4x4')
-        extra = ctx.budget(400, 1500)
+        extra = ctx.budget(600, 1500)
     for k in range(extra):
         ny, nx = rng.randint(1, 7), rng.randint(1, 9)
         dens = rng.choice([0.03, 0.1, 0.3, 0.6])
@@ -311,23 +311,27 @@ class Case:
         topo = self.c.topology
         try:
             fe = [[int(v) for v in np.ma.asarray(row).compressed()] for row in np.ma.asarray(topo.face_edge_array)]
-            en = [tuple(int(v) for v in np.ma.asarray(row).compressed()) for row in np.ma.asarray(topo.edge_node_array)]
             ne = int(topo.edge_count)
         except Exception as e:
             self.edge_problem = f'{type(e).__name__}: {e}'
             return
-        pairs = {frozenset((a, b)) for f in self.faces for a, b in zip(f, f[1:] + f[:1])}
-        ok = ne == len(en) == len(pairs) and len(fe) == len(self.faces)
-        if ok:
-            for f, row in zip(self.faces, fe):
-                want = sorted(tuple(sorted((a, b))) for a, b in zip(f, f[1:] + f[:1]))
-                have = sorted(tuple(sorted(en[e])) for e in row if 0 <= e < ne)
-                if want != have:
+        # face_edge column k of face f must be the edge between nodes f[k] and f[k+1]; that has to
+        # define a bijection between the edge ids used and the node pairs of the mesh
+        pair_of: dict = {}
+        id_of: dict = {}
+        ok = len(fe) == len(self.faces)
+        for f, row in zip(self.faces, fe):
+            if len(row) != len(f):
+                ok = False
+                break
+            for k, e in enumerate(row):
+                pair = frozenset((f[k], f[(k + 1) % len(f)]))
+                if not (0 <= e < ne) or pair_of.setdefault(e, pair) != pair or id_of.setdefault(pair, e) != e:
                     ok = False
         if ok:
             self.edge_info = (ne, fe)
         else:
-            self.edge_problem = 'face_edge_array / edge_node_array do not describe the faces\' node pairs'
+            self.edge_problem = 'face_edge_array is not a consistent numbering of the faces\' node pairs'
 
     def truth(self, geom) -> list:
         return [bool(p is not None and p.intersects(geom)) for p in self.polys]
@@ -496,7 +500,7 @@ def subset(a, b) -> bool:
 
 def run_datasets(ctx, items: list, fails: list, f1_lines: list) -> None:
     rng = ctx.rng
-    per_variant = ctx.budget(16, 60)
+    per_variant = ctx.budget(30, 150)
     for variant in CONV_VARIANTS:
         for d in range(per_variant):
             recipe = recipe_for(rng, variant, ctx.tier)
@@ -686,6 +690,14 @@ def run(ctx) -> None:
             if model_out != impl_out:
                 ctx.disagree(line, impl_out, model_out, desc)
         ctx.count('ugrid:compared-with-hit-order-quirk', len(f1_lines))
+        # model side of the same finding: the quirk definition fails the decidable form of
+        # renumber_spec on exactly these inputs, the demanded definition passes it
+        pc = [l.replace('ugridmask-current', 'propcheck-renumber-current', 1) for l, _, _ in f1_lines[:50]]
+        pd = [l.replace('ugridmask-current', 'propcheck-renumber', 1) for l, _, _ in f1_lines[:50]]
+        for line, got, want in zip(pc + pd, ctx.model(pc + pd), ['FAIL'] * len(pc) + ['OK'] * len(pd)):
+            ctx.evaluations += 1
+            if got != want:
+                ctx.disagree(line, want, got, {'op': line})
 
 
 def replay(ctx, data) -> int:
